@@ -36,8 +36,11 @@ def junit(p):
 def main():
     seed, sid = sys.argv[1], sys.argv[2]
     nosuite = '--no-suite' in sys.argv
+    checks_only = '--checks-only' in sys.argv
     wt = '/tmp/val_%s' % sid
     res = {'id': sid, 'seed_dir': seed}
+    if checks_only and os.path.exists(os.path.join(seed, 'eval.json')):
+        res = json.load(open(os.path.join(seed, 'eval.json')))
     sh('git -C /repo worktree remove --force %s' % wt)
     r = sh('git -C /repo worktree add -q --detach %s HEAD' % wt)
     if r.returncode:
@@ -53,12 +56,19 @@ def main():
             return
         res['files'] = sh('git -C %s diff --stat' % wt).stdout.strip().splitlines()[-1:]
         demo = os.path.join(seed, 'demo.py')
-        d1 = sh('cd /tmp && PYTHONPATH=%s timeout 600 /venv/bin/python %s' % (wt, demo))
-        d0 = sh('cd /tmp && PYTHONPATH=/repo timeout 600 /venv/bin/python %s' % demo)
-        res['demo_changed_exit'] = d1.returncode
-        res['demo_changed_tail'] = (d1.stdout + d1.stderr)[-600:]
-        res['demo_unchanged_exit'] = d0.returncode
-        res['demo_unchanged_tail'] = (d0.stdout + d0.stderr)[-300:]
+        if checks_only:
+            nosuite = True
+        d1 = None if checks_only else sh('cd /tmp && PYTHONPATH=%s timeout 600 /venv/bin/python %s' % (wt, demo))
+        d0 = None if checks_only else sh('cd /tmp && PYTHONPATH=/repo timeout 600 /venv/bin/python %s' % demo)
+        if checks_only:
+            raise_skip = True
+        else:
+            raise_skip = False
+        if not raise_skip:
+          res['demo_changed_exit'] = d1.returncode
+          res['demo_changed_tail'] = (d1.stdout + d1.stderr)[-600:]
+          res['demo_unchanged_exit'] = d0.returncode
+          res['demo_unchanged_tail'] = (d0.stdout + d0.stderr)[-300:]
         if not nosuite:
             jx = '/tmp/val_%s.junit.xml' % sid
             s = sh('cd %s && unshare -n sh -c "ip link set lo up; PYTHONPATH=%s timeout 1500 /venv/bin/python -m pytest -ra -q -p no:cacheprovider '
